@@ -335,13 +335,13 @@ def abstract_gfile(dcmstack, spec, ds, case):
     a['gps'] = [fr(float(vs[0])), fr(float(vs[1]))]
     a['gzs'] = fr(float(vs[2]))
     nw = dcmstack.dcmmeta.NiftiWrapper.from_dicom_wrapper(dw, meta)
-    a['dtype'] = str(nw.nii_img.get_data_dtype())
+    a['gdtype'] = str(nw.nii_img.get_data_dtype())
     a['faff'] = mat_fr(np.asarray(nw.nii_img.affine, dtype=np.float64).tolist())
     b = meta.get('BitsStored')
-    a['bits'] = None if b is None else int(b)
+    a['gbits'] = None if b is None else int(b)
     t = meta.get('AcquisitionTime')
     assert t is None or isinstance(t, str)
-    a['acq'] = t
+    a['gacq'] = t
     return a
 
 
@@ -359,7 +359,7 @@ def coq_gfile(a):
         clist(clist(cz(x) for x in row) for row in a['gpix']),
         clist(cQ(x) for x in a['giop']), clist(cQ(x) for x in a['gipp']),
         cpair(cQ(a['gps'][0]), cQ(a['gps'][1])), cQ(a['gzs']),
-        cstr(a['dtype']), copt(a['bits'], cnat), copt(a['acq'], cstr))
+        cstr(a['gdtype']), copt(a['gbits'], cnat), copt(a['gacq'], cstr))
 
 
 # ------------------------------------------------------------------------------------------------
@@ -579,8 +579,6 @@ def oracle_c02(case, obs):
     if case.get('expect') == 'error':
         return None
     if obs.get('err') is not None:
-        if obs['err'] == 'EKey' and case['info'].get('acq') == 'none_in_some':
-            return None          # AcquisitionTime present in some files only (KeyError in to_nifti): reported separately
         return 'complete stack (%s) was not converted: %s' % (case['dims'], obs['err'])
     exact = bool(case['exact'])
     shape, flat = obs['shape'], obs['data']
@@ -607,8 +605,6 @@ def oracle_c02(case, obs):
         return 'dtype: output dtype %s / %s, expected %s' % (obs['dtype'], obs['array_dtype'], want)
     alt = obs.get('alt')
     if alt is not None:
-        if alt.get('err') == 'EKey' and case['info'].get('acq') == 'none_in_some':
-            return None
         if alt.get('err') is not None:
             return 'invariance: order %r converts, order %r raises %s' % (case.get('vo'), case['vo2'], alt['err'])
         if sorted(alt['data']) != sorted(flat):
@@ -651,8 +647,6 @@ def oracle_c20(case, obs):
     if not isinstance(obs, dict) or 'crash' in obs or case.get('expect') == 'error':
         return None
     if obs.get('err') is not None:
-        if obs['err'] == 'EKey' and case['info'].get('acq') == 'none_in_some':
-            return None          # AcquisitionTime present in some files only: outside the property's conditions
         return 'complete stack (%s) was not converted: %s' % (case['dims'], obs['err'])
     exact = bool(case['exact'])
     S, T, V = case['dims']
